@@ -94,6 +94,16 @@ def _inst_SB(app):
     return [z3.Length(app) == z3.If(b >= a, b - a, 0)]
 
 
+# floor division / modulo by a *symbolic* positive divisor, kept uninterpreted (only their ranges are used)
+PYMOD = z3.Function('pymod', IntS, IntS, IntS)
+PYDIV = z3.Function('pydiv', IntS, IntS, IntS)
+
+
+def _inst_pymod(app):
+    x, y = app.arg(0), app.arg(1)
+    return [z3.Implies(y > 0, z3.And(app >= 0, app < y))]
+
+
 rep = z3.Function('rep', Bytes, IntS, Bytes)      # b repeated n times
 
 
@@ -104,7 +114,7 @@ def _inst_rep(app):
 
 
 INSTANCES = {'le32': _inst_le32, 'unle32': _inst_unle32, 'bsum': _inst_bsum, 'zeros': _inst_zeros,
-             'decimal': _inst_decimal, 'catD': _inst_catD, 'rep': _inst_rep, 'catFS': _inst_catFS, 'SB': _inst_SB}
+             'decimal': _inst_decimal, 'catD': _inst_catD, 'rep': _inst_rep, 'catFS': _inst_catFS, 'SB': _inst_SB, 'pymod': _inst_pymod}
 # catD's unfolding is added only on request (it creates new catD terms): see axioms_for(..., unfold=...)
 
 EXTRA_INSTANCES = {}      # contracts may register more (name -> fn(app) -> [formulas])
@@ -147,6 +157,36 @@ def _split_instances(apps):
     return out
 
 
+def _mulmod_instances(formulas):
+    """Modular-arithmetic congruence, instantiated on the products that occur:  ((a mod m) * b) mod m == (a * b) mod m  for a numeral m > 0."""
+    out = []
+    seen = set()
+    stack = list(formulas)
+    visited = set()
+    while stack:
+        t = stack.pop()
+        if t.get_id() in visited:
+            continue
+        visited.add(t.get_id())
+        if z3.is_quantifier(t):
+            stack.append(t.body())
+            continue
+        if not z3.is_app(t):
+            continue
+        if t.decl().kind() == z3.Z3_OP_MUL and t.num_args() == 2:
+            for i in (0, 1):
+                a, b = t.arg(i), t.arg(1 - i)
+                if z3.is_app(a) and a.decl().kind() == z3.Z3_OP_MOD and z3.is_int_value(a.arg(1)) and a.arg(1).as_long() > 0 \
+                        and not z3.is_int_value(b) and t.get_id() not in seen and not _has_bound_var(t):
+                    seen.add(t.get_id())
+                    m = a.arg(1)
+                    out.append((t % m) == ((a.arg(0) * b) % m))
+        stack.extend(t.children())
+    if out:
+        USED_AXIOMS.add('mul-mod-congruence')
+    return out
+
+
 def axioms_for(formulas, rounds=2):
     """Ground axiom instances for every application of a spec function in `formulas` (and in the instances
     generated in the first round)."""
@@ -180,6 +220,7 @@ def axioms_for(formulas, rounds=2):
             USED_AXIOMS.add(a.decl().name())
             new.extend(table[a.decl().name()](a))
         if _ == 0:
+            new.extend(_mulmod_instances(frontier))
             sp = _split_instances(apps)
             if sp:
                 USED_AXIOMS.add('cat-split')
